@@ -288,7 +288,7 @@ class Parser:
             groups, labels, items, seen_label = [], [], [], False
             while not self.at('}'):
                 if self.at('case') or self.at('default'):
-                    if items or (labels and False):
+                    if items:
                         groups.append((labels, items)); labels, items = [], []
                     if self.at('case'):
                         self.next(); labels.append(self.cond()); self.expect(':')
@@ -1036,11 +1036,8 @@ RESERVED = {'if', 'then', 'else', 'let', 'in', 'fun', 'match', 'with', 'end', 'a
 # ------------------------------------------------------------------------------------------------ driver
 
 def indent(term, n=2):
-    """indent by nesting depth of let/match/if lines (cosmetic only)"""
-    out, depth = [], 0
-    for line in term.split('\n'):
-        out.append(' ' * n + line)
-    return '\n'.join(out)
+    """cosmetic only"""
+    return '\n'.join(' ' * n + line for line in term.split('\n'))
 
 
 def translate(target, src):
